@@ -142,6 +142,14 @@ func judge(c Case, w *vkit.W) {
 			// the same verb reaches the value inside containers and through the other print functions
 			out("Sprintf(%+v)", fmt.Sprintf("%+v", orig), ext)
 			// a width no larger than the text asks for no padding under any reading of the verbs
+			// every flag of the verbs: the type writes its text itself (it implements fmt.Formatter), whatever the flags say
+			out("Sprintf(%#v)", fmt.Sprintf("%#v", orig), ext)
+			out("Sprintf(%#s)", fmt.Sprintf("%#s", orig), ext)
+			out("Sprintf(% v)", fmt.Sprintf("% v", orig), ext)
+			out("Sprintf(%010v)", fmt.Sprintf("%010v", orig), ext)
+			out("Sprintf(%.3s)", fmt.Sprintf("%.3s", orig), ext)
+			out("Sprintf(%#b)", fmt.Sprintf("%#b", orig), ref.DateText(c.Y, c.M, c.D, true))
+			out("Sprintf(%+e)", fmt.Sprintf("%+e", orig), ext)
 			out("Sprintf(%10v)", fmt.Sprintf("%10v", orig), ext)
 			out("Sprintf(%1s)", fmt.Sprintf("%1s", orig), ext)
 			out("Sprintf(%-10v)", fmt.Sprintf("%-10v", orig), ext)
